@@ -256,6 +256,18 @@ Theorem C03_serial_orders_realised :
 Proof. exact serial_orders_realised. Qed.
 Print Assumptions C03_serial_orders_realised.
 
+(* both directions in one statement *)
+Theorem C03_quiescent_results_exactly_serial :
+  forall tb, table_covered tb = true ->
+  forall c progs sh0 sh (done : nat -> list rv),
+    (exists sched, let s := conc_run tb c progs sh0 sched in
+                   finished s /\ m_sh s = sh /\ forall t, t_done (m_thr s t) = done t)
+    <->
+    (exists order, let '(shS, todoS, doneS) := serial_run tb c progs sh0 order in
+                   shS = sh /\ (forall t, doneS t = done t) /\ forall t, todoS t = []).
+Proof. exact quiescent_results_exactly_serial. Qed.
+Print Assumptions C03_quiescent_results_exactly_serial.
+
 (* ---- `agree` transfers to `holds` -----------------------------------------------------------------
    What the check computes per run: agree = the model (Model/C03_Model.v, run serially in the observed
    lock order) gives exactly the implementation's observation; holds = the implementation's
